@@ -198,6 +198,8 @@ Apply(cx, st, cmd) ==
     \* <prefix>::ConnectPorts(boundary port, the user's own port object): binds every user-side event of that port at once
     [] cmd.c = "connect"     -> Bind(cx, st, cmd.port, "*", cmd.client, TRUE)
     [] cmd.c = "unbind-comp" -> UnbindComp(cx, st, cmd.port, cmd.event)
+    \* the shell is destroyed: with either origin the USER's dispatcher keeps running (only a created one goes with the shell)
+    [] cmd.c = "destroy"     -> [st |-> st, obs |-> Obs(st, [ok |-> TRUE, user_pump_stopped |-> FALSE], <<>>, {})]
     [] cmd.c = "register"    -> Register(cx, st, cmd.id)
     [] cmd.c = "final"       -> Final(cx, st)
     [] cmd.c = "script"      -> Script(cx, st, cmd.port, cmd.event, cmd.v)
